@@ -34,7 +34,12 @@ def ts_roundtrip(item_size, ms):
         P.assume(stamp < 256 ** item_size - 1)                       # fits the field and is not the 'forever' sentinel
         P.inputs.update(seconds=SInt(secs), milliseconds=SInt(m))
         aware = P.choose('aware datetime')
-        t = SDateTime(secs, m * 1000, aware=aware)
+        off = None
+        if aware:
+            off = z3.Int('utcoffset')                                # any time zone: the instant is what is encoded
+            P.assume(z3.And(off > -86400, off < 86400))
+            P.inputs['utcoffset'] = SInt(off)
+        t = SDateTime(secs, m * 1000, aware=aware, off=off)
         c = composer()
         out = vc.outcome_of(lambda: I.call(I.getattr_(c, 'compose_timestamp'), [t], dict(milliseconds=ms, item_size=item_size)))
         if out.kind == 'raise':
@@ -86,10 +91,13 @@ def ts_search(item_size, ms):
                     stamp = base * 1000 + m if ms else base
                     if stamp >= 256 ** item_size - 1:
                         continue
-                    for aware in (False, True):
+                    for aware in (False, True, 'offset'):
                         t = datetime.datetime.fromtimestamp(base, dateutil.tz.UTC) + datetime.timedelta(milliseconds=m)
                         if not aware:
                             t = t.replace(tzinfo=None)
+                        elif aware == 'offset':
+                            # the same instant expressed in a zone with a non-zero UTC offset
+                            t = t.astimezone(datetime.timezone(datetime.timedelta(minutes=rnd.choice((-570, -300, 60, 345, 840)))))
                         call = 'TZ=%s compose_timestamp(%r, milliseconds=%s, item_size=%d)' % (tz, t, ms, item_size)
                         try:
                             c = ComposerBinary()
